@@ -285,6 +285,7 @@ World *W = nullptr;
 
 void capture(const sdkmet::ResourceMetrics &rm, Collection &c)
 {
+  hz::HarnessCode hc_;
   for (auto &sm : rm.scope_metric_data_)
     for (auto &md : sm.metric_data_)
     {
@@ -341,13 +342,14 @@ public:
   sdkmet::AggregationTemporality GetAggregationTemporality(
       sdkmet::InstrumentType) const noexcept override
   {
+    hz::HarnessCode hc_;
     return temporality_ ? sdkmet::AggregationTemporality::kCumulative
                         : sdkmet::AggregationTemporality::kDelta;
   }
 
 private:
-  bool OnForceFlush(std::chrono::microseconds) noexcept override { return true; }
-  bool OnShutDown(std::chrono::microseconds) noexcept override { return true; }
+  bool OnForceFlush(std::chrono::microseconds) noexcept override { hz::HarnessCode hc_; return true; }
+  bool OnShutDown(std::chrono::microseconds) noexcept override { hz::HarnessCode hc_; return true; }
   int temporality_;
 };
 
@@ -362,11 +364,12 @@ public:
   sdkmet::AggregationTemporality GetAggregationTemporality(
       sdkmet::InstrumentType) const noexcept override
   {
+    hz::HarnessCode hc_;
     return temporality_ ? sdkmet::AggregationTemporality::kCumulative
                         : sdkmet::AggregationTemporality::kDelta;
   }
-  bool ForceFlush(std::chrono::microseconds) noexcept override { return true; }
-  bool Shutdown(std::chrono::microseconds) noexcept override { return true; }
+  bool ForceFlush(std::chrono::microseconds) noexcept override { hz::HarnessCode hc_; return true; }
+  bool Shutdown(std::chrono::microseconds) noexcept override { hz::HarnessCode hc_; return true; }
 
 private:
   int temporality_;
@@ -397,7 +400,9 @@ struct World
   std::unique_ptr<sdkmet::MeterProvider> prov;
   nostd::shared_ptr<metrics_api::Meter> meter, meter2;  // the last instrument may live on a second meter
   std::vector<std::shared_ptr<sdkmet::MetricReader>> readers;
-  std::vector<std::vector<Handle>> handles;  // [instrument][handle]
+  // deque: a recorder keeps a reference to its handle across the API call while another task
+  // may add a handle (references into a deque survive push_back)
+  std::vector<std::deque<Handle>> handles;  // [instrument][handle]
   std::vector<Collection> collections;
   std::vector<int> col_count;
   std::vector<Meas> meas;
@@ -415,6 +420,7 @@ struct World
 
 sdkcommon::ExportResult CaptureMetricExporter::Export(const sdkmet::ResourceMetrics &rm) noexcept
 {
+  hz::HarnessCode hc_;
   World &w = *W;
   Collection c;
   c.reader = 0;
@@ -648,6 +654,8 @@ void do_add(World &w, int task, const Op &op)
 
 void do_collect(World &w, int r, bool final_collection = false)
 {
+  if (r < 0 || r >= (int)w.col_count.size())
+    return;  // (a minimised case may have fewer readers than its operations name)
   if (r == 0 && w.c->knob("periodic", 0))
   {
     // reader 0 is a real periodic reader: a collection cycle is forced through ForceFlush
@@ -706,6 +714,7 @@ public:
   explicit DirectCollector(int t) : t_(t) {}
   sdkmet::AggregationTemporality GetAggregationTemporality(sdkmet::InstrumentType) noexcept override
   {
+    hz::HarnessCode hc_;
     return t_ ? sdkmet::AggregationTemporality::kCumulative : sdkmet::AggregationTemporality::kDelta;
   }
 
@@ -1380,6 +1389,7 @@ void check(const Case &c, const vsim::RunResult &)
 void generate(const std::string &prop, Rng &wl, Rng &fl, Case &c)
 {
   vsim::SimKnobs sk;
+  sk.allow_call_points = true;
   sk.allow_cas_spurious = false;
   sk.allow_stall        = true;
   sk.allow_sysjump      = true;
